@@ -234,6 +234,18 @@ def py_filter(rows: List[tuple], col: str, op: str, val) -> List[tuple]:
             if x is not None:
                 out.append(r)
             continue
+        if op == "!=":
+            # row-level semantics of the engine: NULL never matches, NaN differs from every number
+            if x is not None and (x == "NaN" or x != val):
+                out.append(r)
+            continue
+        if op == "in":
+            # the value set is cast to the column's type (32-bit float column: compare after rounding)
+            import struct
+            vals = [struct.unpack("f", struct.pack("f", float(v)))[0] for v in val] if col == "f" else list(val)
+            if x is not None and x != "NaN" and x in vals:
+                out.append(r)
+            continue
         if x is None or x == "NaN":
             continue
         if op == "==" and x == val:
@@ -468,7 +480,8 @@ def execute(plan: dict, scratch: str, replay: Optional[dict] = None) -> dict:
                                          f"{len(model_rows)} accepted rows", f"{vclass}|{rclasses}")
                     return
             for col, op, val in (("v", ">=", 0), ("tag", "==", rows[0]["tag"] if st["kind"] == "records" and isinstance(rows[0].get("tag"), str) else "zz"),
-                                 ("x", "is_not_null", True), ("i", ">=", -5), ("f", "is_not_null", True)):
+                                 ("x", "is_not_null", True), ("i", ">=", -5), ("f", "is_not_null", True),
+                                 ("x", "!=", 1.5), ("f", "in", [0.1, 0.5])):
                 flt = {col: val} if op == "==" else {col: (op, val)}
                 try:
                     got = sorted((ir.row_key(r) for r in t.scan(filter=flt)), key=repr)
